@@ -3005,6 +3005,17 @@ def register_x509_certificate_alg(cert_algorithm: bytes, default: bool) -> None:
         _certificate_alg_map[cert_algorithm] = (None, SSHX509CertificateChain)
 
 
+def get_signature_alg(host_key_alg: bytes) -> bytes:
+    """Return the signature algorithm used by a host key algorithm"""
+
+    sig_alg = _certificate_sig_alg_map.get(host_key_alg, host_key_alg)
+
+    if sig_alg.startswith(b'x509v3-'):
+        sig_alg = sig_alg[7:]
+
+    return sig_alg
+
+
 def get_public_key_algs() -> List[bytes]:
     """Return supported public key algorithms"""
 
